@@ -223,7 +223,7 @@ def config_spec(draw, optimizer, max_cycles=(1, 8), pop_mults=(1, 1, 1.5, 2, 3),
 
 
 @st.composite
-def run_spec(draw, optimizer, task=None, config=None, modes=("serial",), max_workers=16):
+def run_spec(draw, optimizer, task=None, config=None, modes=("serial",), max_workers=16, warmup=0.0):
     t = draw(task if task is not None else task_spec())
     c = draw(config if config is not None else config_spec(optimizer))
     mode = draw(st.sampled_from(modes))
@@ -233,4 +233,8 @@ def run_spec(draw, optimizer, task=None, config=None, modes=("serial",), max_wor
         spec["mode"] = mode
     if mode != "serial":
         spec["workers"] = draw(st.one_of(st.none(), st.integers(1, max_workers)))
+    if warmup > 0 and draw(_f(0.0, 1.0)) < warmup:
+        # an earlier optimize() call on the same instance, on a task of another shape / direction / scale
+        spec["warmup"] = draw(task_spec(max_dim=5, encodings=("cont_multi", "cont_multi", "mixed", "discrete",
+                                                              "permutation"), styles=("direct",)))
     return spec
